@@ -17,7 +17,7 @@ from ..algebra_lin import linear_form
 
 FILESET = "typhon/files/fileset.py"
 HCOMMON = "typhon/files/handlers/common.py"
-EXPECT = {"C02.table": 18, "C02.year2": 1, "C02.doy": 2, "C02.subsec": 2, "C02.endfill": 4, "C02.default_end": 3, "C02.merge": 4, "C02.reject": 4}
+EXPECT = {"C02.table": 18, "C02.year2": 1, "C02.doy": 2, "C02.subsec": 2, "C02.endfill": 4, "C02.default_end": 3, "C02.merge": 4, "C02.reject": 4, "C02.memo": 1}
 
 DOCUMENTED = ["year", "year2", "month", "day", "doy", "hour", "minute", "second", "millisecond"]
 FIELD = {"year": "year", "month": "month", "day": "day", "hour": "hour", "minute": "minute", "second": "second"}
@@ -440,7 +440,71 @@ def rule_anchor(ctx, rule="C01.anchor"):
     ctx.ob("FileSet._get_matching_files.regex", bool(mm) and norm(mm[0].args[0]) == "filename", "%s" % (norm(mm[0]) if mm else None), "regex.match(filename) on the full path", node=mm[0] if mm else g.node, func=g)
 
 
+MEMO_EXAMPLE = """
+class K:
+    def a(self):
+        if self._m is None:
+            self._m = compile(self._src)
+        return self._m
+    def b(self, v):
+        self._src = v
+    def c(self, v):
+        self._src = v
+        self._m = None
+"""
+
+
+def memo_incoherences(class_node):
+    """lazy memo attributes (`if self.X is None: self.X = f(self.B...)`) and the methods that store a dependency B without resetting X"""
+    memos = {}
+    for m in class_node.body:
+        if not isinstance(m, ast.FunctionDef):
+            continue
+        for st in ast.walk(m):
+            if isinstance(st, ast.If) and isinstance(st.test, ast.Compare) and len(st.test.ops) == 1 and isinstance(st.test.ops[0], ast.Is) \
+                    and isinstance(st.test.comparators[0], ast.Constant) and st.test.comparators[0].value is None:
+                x = dotted(st.test.left)
+                if not (x and x.startswith("self.")):
+                    continue
+                for s2 in st.body:
+                    if isinstance(s2, ast.Assign) and len(s2.targets) == 1 and dotted(s2.targets[0]) == x:
+                        deps = {dotted(n) for n in ast.walk(s2.value) if isinstance(n, ast.Attribute) and dotted(n) and dotted(n).startswith("self.") and dotted(n).count(".") == 1}
+                        deps.discard(x)
+                        if deps:
+                            memos[x] = (deps, m.name)
+    out = []
+    for x, (deps, where) in memos.items():
+        for m in class_node.body:
+            if not isinstance(m, ast.FunctionDef):
+                continue
+            stored = set()
+            for st in ast.walk(m):
+                if isinstance(st, (ast.Assign, ast.AugAssign)):
+                    for t in (st.targets if isinstance(st, ast.Assign) else [st.target]):
+                        d = dotted(t)
+                        if d:
+                            stored.add(d)
+            hit = stored & deps
+            if hit and x not in stored and m.name != "__init__":
+                out.append((x, where, m.name, sorted(hit)))
+    return memos, out
+
+
+def rule_memo(ctx, rule="C02.memo"):
+    ctx.rule(rule, "T2 (derived-state coherence)", "a lazily computed attribute is reset wherever the attributes it was computed from are re-assigned")
+    ex = ast.parse(MEMO_EXAMPLE).body[0]
+    m0, bad0 = memo_incoherences(ex)
+    if not (list(m0) == ["self._m"] and [b[2] for b in bad0] == ["b"]):
+        raise AnalysisError("memo detector self-check failed: %s %s" % (m0, bad0))
+    mod = ctx.mod(FILESET)
+    cls = mod.cls("FileSet")
+    memos, bad = memo_incoherences(cls)
+    f = ctx.func(FILESET, "FileSet.parse_filename")
+    ctx.ob("FileSet.memo_coherence", not bad, "lazy attributes: %s; stale after: %s" % (sorted(memos) or "none", ["%s (from %s) not reset in %s which stores %s" % b for b in bad] or "nothing"),
+           "every method that stores a dependency also resets the memo (detector verified on an embedded positive example)", node=f.node, func=f)
+
+
 def run(ctx):
-    for r in (rule_table, rule_year2, rule_doy_subsec, rule_endfill, rule_default_end, rule_merge, rule_reject):
+    for r in (rule_table, rule_year2, rule_doy_subsec, rule_endfill, rule_default_end, rule_merge, rule_reject, rule_memo):
         ctx.attempt(r, ctx)
     ctx.attempt(rule_anchor, ctx, "C01.anchor")
